@@ -565,14 +565,16 @@ LEVELS["C05"] = "fault_enumeration"
 def check_C05(run, replay):
     run.rule = ("TLC enumerates the configuration lattice of MC_Lattice.tla (all RegretParams::new tuples with exponents / "
                 "weight in {-inf,-1000,-1,0,1/2,1,2,1000,+inf}, the presets and None, budgets {0,1,2,3,40}, thresholds "
-                "{-1,0,1e-300,+inf,NaN}, threads {0,1,2,3,16,usize::MAX/3+1,usize::MAX}, three methods, fourteen games incl. all "
+                "{-1,0,1e-300,+inf,NaN}, threads {0,1,2,3,16,usize::MAX/3+1,usize::MAX}, three methods, fifteen games incl. an opponent infoset shared by all parallel tasks, all "
                 "payoffs equal, a player without decisions, no decision at all (chance only / forced moves only), payoffs of "
                 "magnitude 1e6) by a deterministic stride slice and "
                 "states the specified verdict (ThreadDecision); every point runs in a child process under a 30 s watchdog: "
                 "normal return or the documented error, every infoset a distribution, bounds non-negative numbers that are "
                 "infinite iff the budget is 0; plus the dynamic-range family (strategy exponents 50..1000 x budgets 1..1500 "
                 "x regret exponents down to -1000 x fallback weights on games with an infoset reached in the first "
-                "iteration only: the accumulators pass through the subnormal range); distinct by lattice index; every point is non-trivial")
+                "iteration only: the accumulators pass through the subnormal range) and the contention family (External, 2 / 3 / "
+                "16 threads, on the game whose opponent infoset is shared by all parallel tasks); distinct by lattice index; "
+                "every point is non-trivial")
     run.assumptions = ["|payoff| <= 1e6", "hang = no return within 30 s",
                        "usize::MAX/3 itself (65535 real threads in rayon) is not exercised: resource hazard for the sandbox"]
     if replay:
@@ -580,15 +582,18 @@ def check_C05(run, replay):
         absorb(run, rows, cases, mismatch_sig("solve"))
         return
     stride = 34981 if run.tier == "quick" else 1399
-    res = tlc("MC_Lattice", env={"SLICE": run.seed % stride, "OF": stride, "NUMGAMES": 14, "FAMILY": "lattice"}, timeout=3000)
+    res = tlc("MC_Lattice", env={"SLICE": run.seed % stride, "OF": stride, "NUMGAMES": 15, "FAMILY": "lattice"}, timeout=3000)
     run.add_tlc(res)
     recs = res.out("OUT")
     # the dynamic-range family: exponents x budgets whose discount products sweep the subnormal range
     rstride = 37 if run.tier == "quick" else 1
-    res2 = tlc("MC_Lattice", env={"SLICE": run.seed % rstride, "OF": rstride, "NUMGAMES": 14, "FAMILY": "range"}, timeout=3000)
+    res2 = tlc("MC_Lattice", env={"SLICE": run.seed % rstride, "OF": rstride, "NUMGAMES": 15, "FAMILY": "range"}, timeout=3000)
     run.add_tlc(res2)
     recs = recs + [(i + 100000000, v) for (i, v) in res2.out("OUT")]
-    run.notes["points"] = {"lattice": len(res.out("OUT")), "range": len(res2.out("OUT"))}
+    res3 = tlc("MC_Lattice", env={"SLICE": 0, "OF": 1, "NUMGAMES": 15, "FAMILY": "contention"}, timeout=3000)
+    run.add_tlc(res3)
+    recs = recs + [(i + 200000000, v) for (i, v) in res3.out("OUT")]
+    run.notes["points"] = {"lattice": len(res.out("OUT")), "range": len(res2.out("OUT")), "contention": len(res3.out("OUT"))}
     exp_path = run.path("lattice.exp.ndjson")
     write_ndjson(exp_path, [{"id": i, "exp": dict(v, seed=run.seed)} for (i, v) in recs])
     out_path = run.path("lattice.res.ndjson")
